@@ -6,8 +6,12 @@ package verifsim
 // that would authenticate it.
 
 import (
+	"bytes"
+	"crypto"
 	"crypto/ecdh"
 	"crypto/hmac"
+	crand "crypto/rand"
+	"crypto/sha256"
 	"fmt"
 	"hash"
 	"net"
@@ -36,7 +40,10 @@ type Rogue13 struct {
 	N     *SimNet
 	Self  net.Addr
 	Peer  net.Addr
-	Chain [][]byte // if set, a Certificate message with this chain is sent - but never a CertificateVerify
+	Chain [][]byte // if set, a Certificate message with this chain is sent
+	// Signer, if set together with Chain, makes this an honest server: CertificateVerify is signed
+	// with it (ecdsa_secp256r1_sha256) over the RFC 8446 4.4.3 content
+	Signer crypto.Signer
 
 	col        *HsCollector
 	suite      suite13
@@ -50,6 +57,7 @@ type Rogue13 struct {
 	recSeq     uint64
 	acked      map[uint64]bool
 	ackSeq     uint64
+	cAPNext    uint64
 	Note       string
 	ClientFin  bool
 }
@@ -246,6 +254,19 @@ func (r *Rogue13) answerHello(ch *HsMsg) error {
 		cert = append([]byte{0, byte(len(list) >> 16), byte(len(list) >> 8), byte(len(list))}, list...)
 		r.transcript = append(r.transcript, canonical13(11, cert)...)
 	}
+	var certVerify []byte
+	if cert != nil && r.Signer != nil {
+		content := append(bytes.Repeat([]byte{0x20}, 64), []byte("TLS 1.3, server CertificateVerify")...)
+		content = append(content, 0)
+		content = append(content, hashOf(h, r.transcript)...)
+		digest := sha256.Sum256(content)
+		sig, serr := r.Signer.Sign(crand.Reader, digest[:], crypto.SHA256)
+		if serr != nil {
+			return serr
+		}
+		certVerify = append([]byte{0x04, 0x03, byte(len(sig) >> 8), byte(len(sig))}, sig...)
+		r.transcript = append(r.transcript, canonical13(15, certVerify)...)
+	}
 	fk := ExpandLabel13(h, r.sHS, "finished", nil, r.suite.hlen)
 	mac := hmac.New(h, fk)
 	mac.Write(hashOf(h, r.transcript))
@@ -262,7 +283,10 @@ func (r *Rogue13) answerHello(ch *HsMsg) error {
 	d0 := plaintextRecord(22, 0, dtlsHs(2, 0, sh))
 	d1rec := keys.Seal13(2, 0, nil, 22, dtlsHs(8, 1, ee), 0)
 	var d2rec []byte
-	if cert != nil {
+	if cert != nil && certVerify != nil {
+		d2rec = append(keys.Seal13(2, 1, nil, 22, dtlsHs(11, 2, cert), 0), keys.Seal13(2, 2, nil, 22, dtlsHs(15, 3, certVerify), 0)...)
+		d2rec = append(d2rec, keys.Seal13(2, 3, nil, 22, dtlsHs(20, 4, fin), 0)...)
+	} else if cert != nil {
 		d2rec = append(keys.Seal13(2, 1, nil, 22, dtlsHs(11, 2, cert), 0), keys.Seal13(2, 2, nil, 22, dtlsHs(20, 3, fin), 0)...)
 	} else {
 		d2rec = keys.Seal13(2, 1, nil, 22, dtlsHs(20, 2, fin), 0)
@@ -276,4 +300,33 @@ func (r *Rogue13) answerHello(ch *HsMsg) error {
 	r.S.Fault("rogue13-flight-without-proof")
 
 	return nil
+}
+
+// SendAppData seals one application record under the server application traffic secret.
+func (r *Rogue13) SendAppData(payload []byte) {
+	keys, _ := NewKeys13(r.suite.id, r.sAP)
+	r.N.Inject(time.Millisecond, r.Self, r.Peer, keys.Seal13(3, r.ackSeq, nil, CTAppData, payload, 0))
+	r.ackSeq++
+}
+
+// OpenAppData opens the epoch-3 application records of a client datagram with the client
+// application traffic secret and returns their payloads.
+func (r *Rogue13) OpenAppData(data []byte) [][]byte {
+	var out [][]byte
+	if r.cAP == nil {
+		return nil
+	}
+	keys, _ := NewKeys13(r.suite.id, r.cAP)
+	recs, _ := ParseDatagram(data, 0)
+	for _, rec := range recs {
+		if !rec.Unified || rec.Epoch != 3 {
+			continue
+		}
+		if ct, plain, _, err := keys.Open13(rec, r.cAPNext); err == nil && ct == CTAppData {
+			out = append(out, plain)
+			r.cAPNext++
+		}
+	}
+
+	return out
 }
